@@ -34,6 +34,7 @@ import SuironVerif.Spec.Machine
 import SuironVerif.Lemmas.Exhausted
 import SuironVerif.Lemmas.EngineSound
 import SuironVerif.Lemmas.EngineRefine
+import SuironVerif.Lemmas.GroupMachineProps
 namespace Suiron.C01
 
 /-- the answers of a sequence of requests on one query (one fuel value per request) -/
@@ -90,6 +91,59 @@ theorem C01_exact (fo : FloatOps) (kb : KB)
     (tr' : List (Option Subst × List String)) (hm : Spec.MRun fo kb ⟨[.goals [.call q] σ0], g0.counter, g0.out⟩ tr')
     (i : Nat) (x y : Option Subst × List String) (hx : (Spec.askOut fo kb fs node g1)[i]? = some x) (hy : tr'[i]? = some y) : x = y :=
   (C01_pure fo kb hkb q σ0 g0 g1 node hmk hg fs).det hm i x y hx hy
+
+/-! ## the whole language: `!`, conjunctions and disjunctions nested to any depth, `not`, `time`
+    (only a `!` written directly inside `not(...)` / `time(...)` is excluded) -/
+
+/-- REFINEMENT for the whole language: the requests on the base node of a query show exactly the behaviour of the
+    reference machine with cut, groups, negation and timing (`Spec/GroupMachine.lean`) started on that query. -/
+theorem C01_full_language (fo : FloatOps) (kb : KB)
+    (hkb : ∀ key rs, kb.get key = some rs → ∀ r ∈ rs, r.body.isNil = true ∨ Spec.Grp.okG r.body = true)
+    (q : Term) (σ0 : Subst) (g0 g1 : G) (node : Node)
+    (hmk : mkNode fo.showF kb (.call q) σ0 g0 = .ok (node, g1)) (hg : Spec.GOK g0) (fs : List Nat) :
+    Spec.Grp.CRun fo kb ⟨[.goals [.g (.call q) 0] σ0], g0.counter, g0.out⟩ (Spec.askOut fo kb fs node g1) :=
+  Spec.Grp.query_refines_group_machine fo kb (Spec.Grp.okKB_of_rules kb hkb) q σ0 g0 g1 node hmk hg fs
+
+/-- and that machine's run is unique -/
+theorem C01_full_language_exact (fo : FloatOps) (kb : KB)
+    (hkb : ∀ key rs, kb.get key = some rs → ∀ r ∈ rs, r.body.isNil = true ∨ Spec.Grp.okG r.body = true)
+    (q : Term) (σ0 : Subst) (g0 g1 : G) (node : Node)
+    (hmk : mkNode fo.showF kb (.call q) σ0 g0 = .ok (node, g1)) (hg : Spec.GOK g0) (fs : List Nat)
+    (tr' : List (Option Subst × List String)) (hm : Spec.Grp.CRun fo kb ⟨[.goals [.g (.call q) 0] σ0], g0.counter, g0.out⟩ tr')
+    (i : Nat) (x y : Option Subst × List String) (hx : (Spec.askOut fo kb fs node g1)[i]? = some x) (hy : tr'[i]? = some y) : x = y :=
+  (C01_full_language fo kb hkb q σ0 g0 g1 node hmk hg fs).det hm i x y hx hy
+
+mutual
+/-- the cut-free fragment of `C01_pure` lies inside the fragment of `C01_full_language` -/
+theorem okG_of_pureG : (g : Goal) → Spec.pureG g = true → Spec.Grp.okG g = true ∧ Spec.Grp.ncG g = true
+  | .call _, _ => ⟨rfl, rfl⟩
+  | .bip name _, h => ⟨rfl, by simpa [Spec.pureG, Spec.Grp.ncG] using h⟩
+  | .and gs, h => by
+    simp only [Spec.pureG, Bool.and_eq_true] at h
+    have := okGL_of_pureGL gs h.2
+    simp only [Spec.Grp.okG, Spec.Grp.ncG, Bool.and_eq_true]
+    exact ⟨⟨h.1, this.1⟩, this.2⟩
+  | .or gs, h => by
+    simp only [Spec.pureG, Bool.and_eq_true] at h
+    have := okGL_of_pureGL gs h.2
+    simp only [Spec.Grp.okG, Spec.Grp.ncG, Bool.and_eq_true]
+    exact ⟨⟨h.1, this.1⟩, this.2⟩
+  | .not gs, h => by
+    simp only [Spec.pureG, Bool.and_eq_true] at h
+    have := okGL_of_pureGL gs h.2
+    simp only [Spec.Grp.okG, Spec.Grp.ncG, Bool.and_eq_true]
+    exact ⟨⟨⟨h.1, this.1⟩, this.2⟩, this.2⟩
+  | .time _, h => by simp [Spec.pureG] at h
+  | .nil, h => by simp [Spec.pureG] at h
+theorem okGL_of_pureGL : (gs : GoalList) → Spec.pureGL gs = true → Spec.Grp.okGL gs = true ∧ Spec.Grp.ncGL gs = true
+  | .nil, _ => ⟨rfl, rfl⟩
+  | .cons g gs, h => by
+    simp only [Spec.pureGL, Bool.and_eq_true] at h
+    have a := okG_of_pureG g h.1
+    have b := okGL_of_pureGL gs h.2
+    simp only [Spec.Grp.okGL, Spec.Grp.ncGL, Bool.and_eq_true]
+    exact ⟨⟨a.1, b.1⟩, ⟨a.2, b.2⟩⟩
+end
 
 /-- fuel is a modelling device only: a request that returns with two fuel values returns the same answer, the same
     successor node and the same global state -/
